@@ -454,10 +454,16 @@ class kFlowDecomp(pathmodel.AbstractPathModelDAG):
         """
         non_empty_paths = []
         non_empty_weights = []
-        for path, weight in zip(solution["paths"], solution["weights"]):
-            if len(path) > 1:
+        non_empty_internal_paths = []
+        internal_paths = solution.get("_paths_internal", solution["paths"])
+        for path, weight, internal_path in zip(solution["paths"], solution["weights"], internal_paths):
+            # (in node mode a path made of a single node is not empty: emptiness is judged on the internal path)
+            if len(internal_path) > 1:
                 non_empty_paths.append(path)
                 non_empty_weights.append(weight)
+                non_empty_internal_paths.append(internal_path)
+        if "_paths_internal" in solution:
+            return {"_paths_internal": non_empty_internal_paths, "paths": non_empty_paths, "weights": non_empty_weights}
         return {"paths": non_empty_paths, "weights": non_empty_weights}
     
 
